@@ -66,7 +66,7 @@ def gen_template(rng, uri, k):
                      "args": gen_section_args(rng, False)}
     nd = rng.randint(1, 3)
     for j in range(nd):
-        d = {"name": "d%d" % (j + 1), "cached": rng.random() < 0.7, "key": None, "arg": rng.random() < 0.4,
+        d = {"name": "d%d" % (j + 1), "cached": rng.random() < 0.7, "key": None, "arg": rng.random() < 0.5, "argdefault": rng.random() < 0.5,
              "buffered": rng.random() < 0.25, "filter": rng.random() < 0.2, "args": {}, "nested": [], "calls": rng.choice((1, 1, 2))}
         if d["cached"]:
             r = rng.random()
@@ -236,7 +236,7 @@ def emit_template(t, scratch, backend):
                 out += ' cache_key="${pk}"'
         out += attr_args(p["args"]) + "/>"
     for d in t["defs"]:
-        a = 'name="%s(%s)"' % (d["name"], "a" if d["arg"] else "")
+        a = 'name="%s(%s)"' % (d["name"], ("a='dflt'" if d.get("argdefault") else "a") if d["arg"] else "")
         if d["cached"]:
             a += ' cached="True"'
             if d["key"] == "arg":
